@@ -9,9 +9,12 @@
 (* element - the code reads it as a surrogate pair -, a lone surrogate is an element of its own) in one   *)
 (* context to a token sequence of Serializer.tla, or Err.  MC_Serializer checks it against the abstract   *)
 (* parser; the deviations it has are named KD_* below (known_findings: same keys).                        *)
-(* The transcription is of the code WITH the repairs of /verif/fixes/C04-*.patch (and ee3b6b4) applied:     *)
+(* The transcription follows the code WITH the repairs of /verif/fixes/C04-*.patch applied (factory serializer:  *)
 (* cdataSectionLeftOpen, cdataEndAfterUnencodable, charRefInCommentOrPI, xml11TabRejected,                 *)
-(* rawLineEndInCdataSection, loneSurrogateWritten, nonCharacterWritten.                                    *)
+(* rawLineEndInCdataSection, loneSurrogateWritten, nonCharacterWritten, xml11RestrictedInCdataElementRejected; *)
+(* ee3b6b4).  The second half transcribes the older serializer XMLSupport/FormatterToXML.cpp (characters,     *)
+(* writeAttrString, accumDefaultEscape, cdata / writeNormalizedChars, accumCommentData,                       *)
+(* accumNormalizedPIData -> accumName) WITH the legacy* repairs of the same directory applied.                *)
 EXTENDS Serializer
 
 Err == <<<<"err">>>>       \* a token sequence no writer produces
@@ -112,9 +115,10 @@ ImplCdataFrom(p, i, outside, out, o) ==
        IF c = RSB /\ i + 2 <= Len(p) /\ p[i + 1] = RSB /\ p[i + 2] = GT
        THEN ImplCdataFrom(p, i + 3, FALSE, out \o reopen \o <<Lit(RSB), Lit(RSB), CDC, CDO, Lit(GT)>>, o)
        ELSE IF c = LF THEN ImplCdataFrom(p, i + 1, outside, Append(out, Lit(LF)), o)
-       ELSE IF LitLineEnd(c, o.ver)                                \* CR; XML 1.1: NEL, LSEP - reference outside the section
+       ELSE IF LitLineEnd(c, o.ver) \/ (o.ver = V11 /\ CharRefForbidden(c, o.ver))
+            \* CR; XML 1.1: NEL, LSEP and the restricted characters (eCRFb) - reference outside the section
             THEN ImplCdataFrom(p, i + 1, TRUE, out \o close \o <<Ref(c)>>, o)
-       ELSE IF CharRefForbidden(c, o.ver) THEN Err
+       ELSE IF CharRefForbidden(c, o.ver) THEN Err                 \* XML 1.0: not a character at all
        ELSE IF BadUnit(c) THEN Err                                 \* checkCodeUnit
        ELSE IF Family(o.enc) = "other" /\ ~Encodable(c, o.enc)
             THEN ImplCdataFrom(p, i + 1, TRUE, out \o close \o <<Ref(c)>>, o)
@@ -137,12 +141,99 @@ Conforms(ctx, p, o) ==
 KD_rawLineEndInCommentOrPI(ctx, p, o) ==
   ctx \in {"comment", "pi"} /\ \E i \in DOMAIN p : LitLineEnd(p[i], o.ver) /\ ~CharRefForbidden(p[i], o.ver)
                                                    /\ (Family(o.enc) = "other" => Encodable(p[i], o.enc))
-(* XML 1.1: the restricted characters are refused inside a cdata-section-elements element instead of being *)
-(* written as references outside the section (as CR, NEL and LSEP now are)                              *)
-KD_xml11RestrictedInCdataElementRejected(ctx, p, o) ==
-  o.ver = V11 /\ ctx = "cdata" /\ \E i \in DOMAIN p : Restricted11(p[i])
 
-AnyKD(ctx, p, o) ==
-  \/ KD_rawLineEndInCommentOrPI(ctx, p, o)
-  \/ KD_xml11RestrictedInCdataElementRejected(ctx, p, o)
+AnyKD(ctx, p, o) == KD_rawLineEndInCommentOrPI(ctx, p, o)
+
+(* ==================================================================================================== *)
+(* The older serializer, FormatterToXML (public class, base of FormatterToHTML).  It knows an encoding    *)
+(* only through m_maxCharacter = XalanTranscodingServices::getMaximumCharacterValue: 0xFFFF for UTF-8 /   *)
+(* UTF-16, 0xFF for ISO-8859-1, 0x7F for everything else; characters above it are written as references   *)
+(* where references exist, and are checked with XalanOutputStream::canTranscodeTo where they do not.       *)
+(* A supplementary character is ONE element here; the code sees its high surrogate first.                  *)
+LMax(enc) == IF enc \in {"UTF-8", "UTF-16"} THEN 65535 ELSE IF enc = "ISO-8859-1" THEN 255 ELSE 127
+LUtf(enc) == enc \in {"UTF-8", "UTF-16"}                                  \* m_encodingIsUTF
+Above(c, enc) == IF c >= 65536 THEN ~LUtf(enc) ELSE c > LMax(enc)         \* ch > m_maxCharacter (first code unit)
+(* initCharsMap / initAttrCharsMap ('S' entries; SPECIALSSIZE = 256) *)
+LCharsS(c, enc) == \/ c \in {LT, GT, AMP}
+                   \/ (c >= 1 /\ c <= 31 /\ c # TAB)
+                   \/ (c >= 127 /\ c <= 159)                              \* j <= 0x9F (fix legacyXml11RestrictedRawInTextOrAttr)
+                   \/ (c >= LMax(enc) /\ c < 256)
+LAttrS(c) == \/ c \in {LT, GT, AMP, QUOT, CR, LF, TAB}
+             \/ (c >= 1 /\ c <= 31)
+             \/ (c >= 127 /\ c <= 159)
+
+(* accumDefaultEscape (accumDefaultEntity first) *)
+LEscape(c, o, escLF) ==
+  IF ~escLF /\ c = LF THEN <<Lit(LF)>>                                    \* outputLineSep
+  ELSE IF c \in {LT, GT, AMP, QUOT, APOS} THEN <<Ref(c)>>
+  ELSE IF c >= 65536 THEN <<Ref(c)>>                                      \* surrogate pair -> one reference to the code point
+  ELSE IF IsHigh(c) THEN Err                                              \* throwInvalidUTF16SurrogateException
+  ELSE IF c > LMax(o.enc) \/ c = LSEP THEN <<Ref(c)>>                     \* (LSEP gets here above the maximum or under XML 1.1)
+  ELSE IF c < 256 /\ LAttrS(c)
+       THEN IF c < 32
+            THEN IF o.ver = V11 \/ c \in {TAB, LF, CR} THEN <<Ref(c)>> ELSE Err    \* throwInvalidCharacterException
+            ELSE <<Ref(c)>>
+  ELSE <<Lit(c)>>
+
+(* characters() *)
+LContentChar(c, o) ==
+  IF (c < 256 /\ LCharsS(c, o.enc)) \/ Above(c, o.enc) \/ (c = LSEP /\ o.ver = V11)
+  THEN LEscape(c, o, FALSE) ELSE <<Lit(c)>>
+RECURSIVE LContent(_, _)
+LContent(p, o) == IF p = <<>> THEN <<>> ELSE Cat(LContentChar(p[1], o), LContent(Tail(p), o))
+
+(* writeAttrString() *)
+LAttrChar(c, o) ==
+  IF (c < 256 /\ LAttrS(c)) \/ Above(c, o.enc) \/ (c = LSEP /\ o.ver = V11)
+  THEN LEscape(c, o, TRUE) ELSE <<Lit(c)>>
+RECURSIVE LAttr(_, _)
+LAttr(p, o) == IF p = <<>> THEN <<>> ELSE Cat(LAttrChar(p[1], o), LAttr(Tail(p), o))
+
+(* cdata() -> writeNormalizedChars(isCData = true): the section is open on entry and on exit; a character   *)
+(* that needs a reference is written between "]]>" and "<![CDATA[" (empty sections can result)             *)
+RECURSIVE LCdataFrom(_, _, _, _)
+LCdataFrom(p, i, out, o) ==
+  IF i > Len(p) THEN Append(out, CDC)
+  ELSE LET c == p[i] IN
+       IF c = LF THEN LCdataFrom(p, i + 1, Append(out, Lit(LF)), o)
+       ELSE IF Above(c, o.enc) \/ c = CR \/ (o.ver = V11 /\ c \in {NEL, LSEP})
+            THEN IF IsHigh(c) THEN Err                                    \* unpaired high surrogate above the maximum
+                 ELSE LCdataFrom(p, i + 1, out \o <<CDC, Ref(c), CDO>>, o)
+       ELSE IF c = RSB /\ i + 2 <= Len(p) /\ p[i + 1] = RSB /\ p[i + 2] = GT
+            THEN LCdataFrom(p, i + 3, out \o <<Lit(RSB), Lit(RSB), CDC, CDO, Lit(GT)>>, o)
+       ELSE LCdataFrom(p, i + 1, Append(out, Lit(c)), o)                  \* c <= m_maxCharacter: accumContent(c)
+LCdata(p, o) == IF p = <<>> THEN <<>> ELSE LCdataFrom(p, 1, <<CDO>>, o)
+
+(* comment / PI data: accumName -> accumNameArray / accumNameAsChar (checkNameChar), UTF: copied *)
+LLitChar(c, o) ==
+  IF LUtf(o.enc) \/ c <= LMax(o.enc) \/ IsSurrogate(c) THEN <<Lit(c)>>
+  ELSE IF Encodable(c, o.enc) THEN <<Lit(c)>>                             \* m_stream->canTranscodeTo
+  ELSE Err                                                                \* UnrepresentableCharacterException
+RECURSIVE LLit(_, _)
+LLit(p, o) == IF p = <<>> THEN <<>> ELSE Cat(LLitChar(p[1], o), LLit(Tail(p), o))
+
+LegacySer(ctx, p, o) == CASE ctx = "text" -> LContent(p, o)
+                          [] ctx = "attr" -> LAttr(p, o)
+                          [] ctx = "cdata" -> LCdata(p, o)
+                          [] ctx \in {"comment", "pi"} -> LLit(p, o)
+LegacyConforms(ctx, p, o) ==
+  LET r == LegacySer(ctx, p, o) IN
+  IF r = Err THEN ~RepresentableStr(ctx, p, o)
+  ELSE Writable(r, o.enc) /\ Parse(ctx, r, o.ver) = p
+
+(* ---- known deviations of the older serializer that remain ---------------------------------------------- *)
+LRawLit(c, ctx, o) == c <= LMax(o.enc) \/ LUtf(o.enc) \/ (ctx # "cdata" /\ Encodable(c, o.enc))   \* copied, not referenced / refused
+KD_legacyRawLineEndInCommentOrPI(ctx, p, o) ==
+  ctx \in {"comment", "pi"} /\ \E i \in DOMAIN p : LitLineEnd(p[i], o.ver) /\ LRawLit(p[i], ctx, o)
+KD_legacyControlRawInCdataCommentPI(ctx, p, o) ==
+  ctx \in {"cdata", "comment", "pi"} /\ \E i \in DOMAIN p :
+     /\ (p[i] < 32 /\ p[i] \notin {TAB, LF, CR}) \/ (o.ver = V11 /\ Restricted11(p[i]))
+     /\ LRawLit(p[i], ctx, o)
+KD_legacyLoneSurrogateWritten(ctx, p, o) == \E i \in DOMAIN p : IsSurrogate(p[i])
+KD_legacyNonCharacterWritten(ctx, p, o) == \E i \in DOMAIN p : p[i] \in {65534, 65535}
+AnyLegacyKD(ctx, p, o) ==
+  \/ KD_legacyRawLineEndInCommentOrPI(ctx, p, o)
+  \/ KD_legacyControlRawInCdataCommentPI(ctx, p, o)
+  \/ KD_legacyLoneSurrogateWritten(ctx, p, o)
+  \/ KD_legacyNonCharacterWritten(ctx, p, o)
 =============================================================================
